@@ -27,6 +27,7 @@ import (
 	"strings"
 	"syscall"
 	"testing"
+	"testing/synctest"
 	"time"
 
 	"github.com/daeuniverse/dae/common/consts"
@@ -695,6 +696,9 @@ func (h *rsHarness) runUntil(done func() bool, simBudget time.Duration) bool {
 	s := h.s
 	limit := s.Now() + simBudget
 	for s.Step < s.MaxSteps && s.Now() < limit {
+		// StepOnce resumes a task and returns at once: wait until that task is parked or
+		// blocked again before looking at any state it may be writing
+		synctest.Wait()
 		if h.stopped() {
 			return false
 		}
@@ -712,6 +716,7 @@ func (h *rsHarness) runUntil(done func() bool, simBudget time.Duration) bool {
 			s.Sleep(time.Minute)
 		}
 	}
+	synctest.Wait()
 	return !h.stopped() && done()
 }
 
@@ -720,8 +725,13 @@ func (h *rsHarness) runUntil(done func() bool, simBudget time.Duration) bool {
 func (h *rsHarness) settleTasks() bool {
 	was := h.running
 	h.running = false
-	for h.s.Step < h.s.MaxSteps && !h.stopped() && h.s.StepOnce(false, 0) {
+	for h.s.Step < h.s.MaxSteps {
+		synctest.Wait()
+		if h.stopped() || !h.s.StepOnce(false, 0) {
+			break
+		}
 	}
+	synctest.Wait()
 	h.running = was
 	return !h.stopped()
 }
